@@ -589,9 +589,12 @@ func shrinkRes(p *Plan) []*Plan {
 		if in.Path != "" {
 			add(func(q *ResPlan) { q.Inputs[i].Path = "" })
 		}
-		if len(in.Scheme) > 8 {
-			add(func(q *ResPlan) { q.Inputs[i].Scheme = q.Inputs[i].Scheme[:len(q.Inputs[i].Scheme)/2] })
-			add(func(q *ResPlan) { q.Inputs[i].Scheme = q.Inputs[i].Scheme[:len(q.Inputs[i].Scheme)-1] })
+		if n := len(in.Scheme); n > 8 {
+			for _, k := range []int{n / 2, n * 3 / 4, n - 16, n - 4, n - 1} {
+				if k > 0 && k < n {
+					add(func(q *ResPlan) { q.Inputs[i].Scheme = q.Inputs[i].Scheme[:k] })
+				}
+			}
 		}
 		if len(in.Host) > 80 {
 			// drop the first label, or halve / shorten it
@@ -601,6 +604,9 @@ func shrinkRes(p *Plan) []*Plan {
 			}
 			if dot > 1 {
 				add(func(q *ResPlan) { q.Inputs[i].Host = q.Inputs[i].Host[dot/2:] })
+				if dot > 8 {
+					add(func(q *ResPlan) { q.Inputs[i].Host = q.Inputs[i].Host[4:] })
+				}
 				add(func(q *ResPlan) { q.Inputs[i].Host = q.Inputs[i].Host[1:] })
 			}
 		}
